@@ -658,3 +658,98 @@ def c08_weight(tier, rng):
         out.append(v)
     return {"cases": cases, "bound": "multisets of <= 3 records x 5 strategies (sampled in quick tier)", "violations": out,
             "samples": [{"records": [0, 1], "strategy": "unique_only"}]}
+
+
+# ---- the composition in DatasetProcessor (which reads reach the resolver at all), both memory modes: bounded pipeline runs -------------------
+def _mm_inputs(d):
+    """two single-isoform '+' genes 10 kb apart in the gene-free stretch of the bundled chr9 reference; plain reads of both, and reads with a
+    primary alignment on one gene and a secondary alignment (flag 256) on the other - all records of such a read lie on ONE chromosome"""
+    import gzip, os
+    import pysam
+    seq = "".join(l.strip() for l in gzip.open(os.path.join(d, "chr9.4M.fa.gz"), "rt") if not l.startswith(">")).upper()
+    inp = pysam.AlignmentFile(os.path.join(d, "chr9.4M.ont.sim.polya.bam"))
+    tid = inp.get_tid("chr9")
+    base = 3041000
+    A = [(base + 1000, base + 1200), (base + 2000, base + 2200), (base + 3000, base + 3300)]
+    B = [(base + 11000, base + 11200), (base + 12000, base + 12200), (base + 13000, base + 13300)]
+    gtf = []
+    for gid, ex in (("mmA", A), ("mmB", B)):
+        gtf.append("chr9\tsyn\tgene\t%d\t%d\t.\t+\t.\tgene_id \"%s\";" % (ex[0][0], ex[-1][1], gid))
+        gtf.append("chr9\tsyn\ttranscript\t%d\t%d\t.\t+\t.\tgene_id \"%s\"; transcript_id \"%s.t1\";" % (ex[0][0], ex[-1][1], gid, gid))
+        for a, b in ex:
+            gtf.append("chr9\tsyn\texon\t%d\t%d\t.\t+\t.\tgene_id \"%s\"; transcript_id \"%s.t1\";" % (a, b, gid, gid))
+    open(os.path.join(d, "mm.gtf"), "w").write("\n".join(gtf) + "\n")
+
+    def rec(name, ex, flag):
+        a = pysam.AlignedSegment(inp.header)
+        a.query_name, a.flag, a.reference_id, a.reference_start, a.mapping_quality = name, flag, tid, ex[0][0] - 1, 60 if not flag else 0
+        cig, s_ = [], ""
+        for i, (x, y) in enumerate(ex):
+            if i:
+                cig.append((3, x - ex[i - 1][1] - 1))
+            cig.append((0, y - x + 1)); s_ += seq[x - 1:y]
+        a.cigartuples, a.query_sequence = cig, s_
+        a.query_qualities = pysam.qualitystring_to_array("I" * len(s_))
+        a.set_tag("NM", 0)
+        return a
+    recs = [rec("plainA_%d" % k, A, 0) for k in range(3)] + [rec("plainB_%d" % k, B, 0) for k in range(3)]
+    recs += [rec("mm_primA", A, 0), rec("mm_primA", B, 256), rec("mm_primB", B, 0), rec("mm_primB", A, 256)]
+    with pysam.AlignmentFile(os.path.join(d, "mm.bam"), "wb", template=inp) as out:
+        for a in sorted(recs, key=lambda x: x.reference_start):
+            out.write(a)
+    pysam.index(os.path.join(d, "mm.bam"))
+    return "mm.bam", "mm.gtf"
+
+
+def _mm_pipeline_problems():
+    import gzip, os, shutil
+    from contracts import c_novel
+    problems = []
+    tables = {}
+    for mode in ([], ["--high_memory"]):
+        d, p = c_novel._run_pipeline(mode, True, _mm_inputs)
+        try:
+            if p.returncode != 0:
+                return ["isoquant %s exited %d: %s" % (mode, p.returncode, p.stderr[-300:])]
+            out = os.path.join(d, "out", "S")
+            rows = []
+            for line in gzip.open(os.path.join(out, "S.read_assignments.tsv.gz"), "rt"):
+                if line.startswith("#"):
+                    continue
+                f = line.rstrip("\n").split("\t")
+                rows.append((f[0], f[3], f[5]))
+            counts = {}
+            for line in open(os.path.join(out, "S.transcript_counts.tsv")):
+                if line.startswith("#") or line.startswith("__"):
+                    continue
+                f = line.rstrip("\n").split("\t")
+                counts[f[0]] = float(f[1])
+            tables[" ".join(mode) or "default"] = (sorted(rows), counts)
+        finally:
+            shutil.rmtree(d, ignore_errors=True)
+    for mode, (rows, counts) in tables.items():
+        for read, winner, loser in (("mm_primA", "mmA.t1", "mmB.t1"), ("mm_primB", "mmB.t1", "mmA.t1")):
+            mine = [r for r in rows if r[0] == read]
+            if [r[1] for r in mine] != [winner]:
+                problems.append("[%s] %s (primary on %s, secondary on %s) is reported as %s: the uniquely assigned primary alignment must win "
+                                "and the secondary one be suppressed" % (mode, read, winner, loser, [(r[1], r[2]) for r in mine]))
+        if abs(sum(counts.values()) - 8) > 1e-6 or abs(counts.get("mmA.t1", 0) - 4) > 1e-6:
+            problems.append("[%s] transcript counts %s: 8 reads, 4 per isoform expected (no read contributes more than 1)" % (mode, counts))
+    if len(tables) == 2 and tables["default"] != tables["--high_memory"]:
+        problems.append("default and --high_memory disagree: %s vs %s" % (tables["default"][1], tables["--high_memory"][1]))
+    return problems
+
+
+def replay_mm_pipeline(d):
+    p = _mm_pipeline_problems()
+    return (not p), "multi-mapper pipeline runs: %s" % (p[:3] or "primary wins in both modes")
+
+
+@bounded("C08.pipeline_modes", ["C08"], note="two real pipeline runs (default and --high_memory) on a synthetic two-gene locus with reads whose primary "
+         "and secondary alignments lie on the same chromosome: the uniquely assigned primary wins, the secondary is suppressed in "
+         "read_assignments and counts, every read counts once, and both modes agree")
+def c08_pipeline(tier, rng):
+    p = _mm_pipeline_problems()
+    viol = [{"obligation": "C08.pipeline_modes", "inputs": {"scenario": "primary+secondary on one chromosome"}, "observed": p[:4],
+             "required": "primary wins, losers suppressed, modes agree", "replay_call": "contracts.c_multimap:replay_mm_pipeline"}] if p else []
+    return {"cases": 2, "bound": "2 pipeline runs, 8 reads", "violations": viol, "samples": [{"read": "mm_primA"}]}
